@@ -106,7 +106,9 @@ hclosure("_check_retry_payloads", "(failed_payloads_with_errs: List[Tuple[Produc
              "retry-only-below-limit[C09]": "self._req_attempts < self._max_attempts",
              "delay-is-current-interval[C09]": "True"}},
          ensures={"no-retry-at-limit[C09]": "implies(old(self._req_attempts) >= self._max_attempts, n_events('Timer') == 0)",
-                  "interval-grows[C09]": "implies(old(self._req_attempts) < self._max_attempts, n_events('Timer') == 1 and "
+                  # C19: while stopping nothing is scheduled that would transmit later (stop() fails the sends itself)
+                  "no-retry-while-stopping[C19]": "implies(old(self.stopping), n_events('Timer') == 0 and n_events('ProduceRequest') == 0)",
+                  "interval-grows[C09]": "implies(old(self._req_attempts) < self._max_attempts and not old(self.stopping), n_events('Timer') == 1 and "
                                          "event_arg('Timer', 0, 0) == old(self._retry_interval) and "
                                          "self._retry_interval == old(self._retry_interval) * 1.20205)"})
 
